@@ -40,7 +40,11 @@ Apply(s, r) ==
     [] r.e = "step_end" /\ r.how = "stop" /\ s0.stopped_at = -1 -> [s0 EXCEPT !.stopped_at = r.t]
     [] r.e = "step_start" ->
          [s0 EXCEPT !.bad = IF s0.cancelled THEN "step_started_after_cancellation"
-                            ELSE IF s0.timedout THEN "step_started_after_timeout" ELSE @]
+                            ELSE IF s0.timedout THEN "step_started_after_timeout"
+                            \* the run resumed from a cancelled context goes on where it stopped: it is not given a new
+                            \* start event (the harness starts every first run with the start event "s0")
+                            ELSE IF s0.run >= 2 /\ r.ty = "Start" /\ r.uid # "s0" THEN "resumed_run_started_over"
+                            ELSE @]
     [] r.e = "outcome" ->
          [s0 EXCEPT !.ended = r.kind,
                     !.bad = IF r.kind = "timedout" /\ ~s0.timedout THEN "timeout_error_without_event"
@@ -51,7 +55,10 @@ Apply(s, r) ==
                             ELSE @]
     [] r.e = "quiet" /\ C.timeout_ms # -1 /\ r.t > C.timeout_ms /\ ~r.done /\ s0.run = 1 ->
          [s0 EXCEPT !.bad = "unfinished_run_not_timed_out"]
-    [] r.e = "snapshot" -> [s0 EXCEPT !.bad = IF ~r.ok THEN "cancelled_context_not_serializable" ELSE @]
+    [] r.e = "snapshot" -> [s0 EXCEPT !.bad = IF ~r.ok THEN "cancelled_context_not_serializable"
+                                               \* what run(ctx=...) looks at to decide between going on and starting afresh
+                                               ELSE IF s0.cancelled /\ ~r.is_running THEN "cancelled_context_not_marked_running"
+                                               ELSE @]
     [] r.e = "resumed" -> [s0 EXCEPT !.bad = IF ~r.ok THEN "cancelled_context_not_resumable" ELSE @]
     [] r.e = "resume_timeout_probe" ->
          [s0 EXCEPT !.bad = IF ~r.timed_out THEN "resumed_unfinished_run_not_timed_out" ELSE @]
